@@ -79,6 +79,19 @@ CLAIMED["C04"] = dict(
          "by exact trace equality on generated configurations plus the lemma-level proofs, not by a closed proof over the loop.",
     technique="Coq proof (arithmetic/case analysis on a transcribed scheduler, vm_compute witnesses) + exact trace correspondence")
 
+CLAIMED["C20"] = dict(
+    text="Proof: _gcd/_lcm return gcd/lcm (Euclid invariant), so the averaging period of average_expected_demand is a common multiple "
+         "of 24 h and every pattern period; the mean over any whole number of periods equals the mean over one; the nearest-entry table "
+         "lookup minimises the distance; the metric's expected demand equals the demand delivered in DD mode when evaluated at "
+         "t + pattern_start (and differs at t when pattern_start != 0: known finding). The remaining metrics (expected demand per "
+         "category and multiplier, WSA, Todini, MRI, pump power/energy/cost, pipe cost/GHG lookups) are definitional formulas in the "
+         "model; they are tied, not proved: every value the implementation returns on generated networks / real result tables equals the "
+         "model's exact rational evaluation within 1e-9 (decided by vm_compute inside coqc).",
+    ref="DESIGN.md section 5 C20",
+    note="Trusted: Coq kernel (axiom-free); harness extracting inputs from wntr objects. Modelled not verified: pandas float arithmetic "
+         "(1e-9 relative), default cost tables (passed explicitly), head-pump maximum-power formula, tank_capacity, population, entropy.",
+    technique="Coq proof (number theory, periodic sums, argmin) + exact-rational differential check of every metric")
+
 NOT_YET = {
 }
 
